@@ -148,7 +148,7 @@ def worker_main(argv):
     out = sys.stdout
 
     def emit(obj):
-        out.write(json.dumps(obj, default=str) + '\n')
+        out.write(json.dumps(obj, default=str, ensure_ascii=True) + '\n')
         out.flush()
 
     if a.replay:
@@ -277,7 +277,8 @@ def spawn(prop_id, extra, hashseed, repo):
     env['VERIF_REPO'] = repo
     env['PYTHONPATH'] = VERIF
     cmd = [PY, '-u', os.path.join(VERIF, 'sim', 'worker.py'), '--prop', prop_id] + extra
-    return subprocess.Popen(cmd, stdout=subprocess.PIPE, stderr=subprocess.PIPE, env=env, cwd=VERIF, text=True)
+    return subprocess.Popen(cmd, stdout=subprocess.PIPE, stderr=subprocess.PIPE, env=env, cwd=VERIF, text=True,
+                            encoding='utf-8', errors='backslashreplace')
 
 
 def collect(procs, wall):
@@ -306,8 +307,16 @@ def collect(procs, wall):
     return outs, errors
 
 
+def _safe(x):
+    return str(x).encode('utf-8', 'backslashreplace').decode('utf-8')
+
+
 def check_main(argv):
     import argparse
+    try:
+        sys.stdout.reconfigure(errors='backslashreplace')
+    except Exception:
+        pass
     ap = argparse.ArgumentParser(prog='check')
     ap.add_argument('prop')
     ap.add_argument('--tier', default=os.environ.get('VERIF_TIER', 'quick'))
@@ -444,7 +453,7 @@ def check_main(argv):
               'seed': v['seed'], 'hashseed': int(v['hashseed'] or 0), 'scenario': v['scenario'],
               'observed': v['violation'].get('detail'), 'repo_head': head, 'repo_dirty': dirty,
               'minimised_from': v['minimised_from']}
-        json.dump(rp, open(path, 'w'), indent=1, default=str)
+        json.dump(rp, open(path, 'w'), indent=1, default=str, ensure_ascii=True)
         # confirm in a fresh interpreter
         p = spawn(pid, ['--replay', path, '--seed', '0'], rp['hashseed'], repo)
         routs, rerrs = collect([p], 600)
